@@ -1,4 +1,5 @@
 import Proofs.Reachable
+import Proofs.LedgerDag
 /-! C09: every declared parent of a live vertex is either live and linked, or checkpointed. -/
 namespace CModel.Book
 open CModel
@@ -11,8 +12,6 @@ def ParentOK (b : Book) (v : Vertex) (p : Hash) : Prop :=
 def DagComplete (b : Book) : Prop :=
   ∀ v ∈ b.verts, v.left ≠ 0 → ParentOK b v v.left ∧ ParentOK b v v.right
 
-theorem hasVertex_iff (b : Book) (h : Hash) : b.hasVertex h = true ↔ ∃ v ∈ b.verts, v.hash = h := by
-  simp [hasVertex]
 
 theorem DagComplete.tr {b b' : Book} (h : DagComplete b) (t : Tr b b') : DagComplete b' := by
   cases t with
@@ -59,7 +58,7 @@ theorem DagComplete.tr {b b' : Book} (h : DagComplete b) (t : Tr b b') : DagComp
         · exact hcp
     have := h v hv'.1 hl
     exact ⟨key _ this.1, key _ this.2⟩
-  | insert v0 es ok hes hcomp =>
+  | insert v0 es ok hes hcomp hzero =>
     have hmono : ∀ p, b.hasVertex p = true →
         ({ b with index := b.index ++ [(v0.trx.hash, v0.hash)], verts := b.verts ++ [v0], edges := b.edges ++ es } : Book).hasVertex p = true := by
       intro p hp
@@ -207,5 +206,94 @@ theorem Reachable.dagComplete {b : Book} (r : Reachable b) : DagComplete b := by
   | trust a _ ih => exact ih.tr (Tr.misc (coreEq_addTrusted _ a))
   | untrust a _ ih => exact ih.tr (Tr.misc (coreEq_removeTrusted _ a))
   | truncate cut _ ih => exact ih.truncate cut
+
+
+/-! ### vertices without declared parents have no incoming edges -/
+def RootsBare (b : Book) : Prop := ∀ v ∈ b.verts, v.left = 0 → ∀ e ∈ b.edges, e.2 ≠ v.hash
+
+theorem RootsBare.tr {b b' : Book} (h : RootsBare b) (he : EdgeInv b) (t : Tr b b') : RootsBare b' := by
+  cases t with
+  | misc ce =>
+    obtain ⟨e1, e2, _⟩ := ce
+    intro v hv hl e hm
+    rw [e1] at hv; rw [e2] at hm
+    exact h v hv hl e hm
+  | drop v0 hv0 hleaf =>
+    intro v hv hl e hm
+    simp only [indexRemove, deleteVertex, List.mem_filter] at hv hm
+    exact h v hv.1 hl e hm.1
+  | insert v0 es ok hes hcomp hzero =>
+    intro v hv hl e hm
+    simp only [List.mem_append, List.mem_singleton] at hv hm
+    rcases hv with hv | rfl
+    · rcases hm with hm | hm
+      · exact h v hv hl e hm
+      · -- new edges point to the fresh vertex
+        have := (hes e hm).1
+        intro e2
+        have hlive := (hasVertex_iff b v0.hash).mpr ⟨v, hv, by rw [← e2, this]⟩
+        rw [ok.freshV] at hlive; cases hlive
+    · rcases hm with hm | hm
+      · -- old edges end in live vertices, the new vertex is fresh
+        intro e2
+        have := (he.live e hm).2.1
+        rw [e2, ok.freshV] at this; cases this
+      · rw [hzero hl] at hm; cases hm
+  | unlink hx hfresh =>
+    intro v hv hl e hm
+    simp only [List.mem_filter] at hm
+    exact h v hv hl e hm.1
+
+theorem RootsBare.steps {b b' : Book} (h : RootsBare b) (he : EdgeInv b) (s : Steps b b') : RootsBare b' := by
+  induction s with
+  | refl => exact h
+  | tail s t ih => exact ih.tr (he.steps s) t
+
+theorem Reachable.rootsBare {b : Book} (r : Reachable b) : RootsBare b := by
+  induction r with
+  | init self => intro v hv; cases hv
+  | @genesis b0 _ _ _ _ _ r0 hv hc hi hpk hcf h _ =>
+    obtain ⟨_, _, _, _, _, _, _, _, e4, _⟩ := createGenesis_ok h
+    intro v _ _ e hm
+    have hnone : ∀ b0 : Book, b0.verts = [] → EdgeInv b0 → b0.edges = [] := by
+      intro b0 h0 hi0
+      cases hq : b0.edges with
+      | nil => rfl
+      | cons x xs =>
+        have := (hi0.live x (by rw [hq]; exact List.mem_cons_self)).1
+        rw [(hasVertex_iff b0 x.1)] at this
+        obtain ⟨w, hw, _⟩ := this
+        rw [h0] at hw; cases hw
+    rw [e4, hnone b0 hv r0.edgeInv] at hm
+    cases hm
+  | createLeaf trx o1 o2 tip r0 hf ih => exact ih.steps r0.edgeInv (steps_createLeaf _ trx o1 o2 tip hf)
+  | addLeaf v r0 ih => exact ih.steps r0.edgeInv (steps_addLeaf _ v)
+  | @retry b r0 ih => exact ih.steps r0.edgeInv (steps_retryParked _ r0.inv.parkOk)
+  | trust a r0 ih => exact ih.tr r0.edgeInv (Tr.misc (coreEq_addTrusted _ a))
+  | untrust a r0 ih => exact ih.tr r0.edgeInv (Tr.misc (coreEq_removeTrusted _ a))
+  | @truncate b cut r0 ih =>
+    cases hr : (b.truncateAt cut).2 with
+    | error e => rw [truncateAt_err hr]; exact ih
+    | ok u =>
+      have hok : (b.truncateAt cut).2 = .ok () := hr
+      obtain ⟨mv, _, _, _, _, hverts, _⟩ := truncateAt_ok hok
+      have hedges : ∀ e ∈ (b.truncateAt cut).1.edges, e ∈ b.edges := by
+        intro e hm
+        unfold truncateAt at hm
+        have hc : b.hasVertex cut = true := by
+          cases hh : b.hasVertex cut with
+          | true => rfl
+          | false => unfold truncateAt at hok; simp [hh] at hok
+        simp only [hc, Bool.not_true, Bool.false_eq_true, ↓reduceIte] at hm
+        cases hcm : collectMoved b (b.ancestors cut) [] with
+        | error e' => unfold truncateAt at hok; simp [hc, hcm] at hok
+        | ok mv' =>
+          rw [hcm] at hm
+          simp only at hm
+          rw [(foldl_deleteVertex _ _).2.1] at hm
+          exact (List.mem_filter.mp hm).1
+      intro v hv hl e hm
+      rw [hverts] at hv
+      exact ih v (List.mem_filter.mp hv).1 hl e (hedges e hm)
 
 end CModel.Book
